@@ -42,7 +42,7 @@ package ratelimiter
 //@   inv window: rlCfg(ownerOf(b)) ==> window(ownerOf(b), b)
 
 //@ func (*TokenBucketRateLimiter).refillTokens
-//@   props C09
+//@   props C09 C12
 //@   requires b != nil && wlocked(b.mutex) && rlCfg(rl) && bucketInv(rl, b)
 //@   requires b.lastRefill <= now()
 //@   ensures inv: bucketInv(rl, b)
@@ -53,7 +53,7 @@ package ratelimiter
 //@   modifies b.tokens, b.lastRefill
 
 //@ func (*TokenBucketRateLimiter).getOrCreateBucket
-//@   props C09
+//@   props C09 C12
 //@   mode seq, mon
 //@   requires rlCfg(rl) && mapInv(rl)
 //@   ghost before LoadOrStore :: newBucket.owner := ptr(rl)
@@ -67,7 +67,7 @@ package ratelimiter
 //@   modifies rl.buckets.has, rl.buckets.val, rl.buckets.dyn
 
 //@ func (*TokenBucketRateLimiter).Allow
-//@   props C09
+//@   props C09 C12
 //@   mode seq, mon
 //@   requires rlCfg(rl) && mapInv(rl)
 //@   requires nolocks: forall x *bucket :: {x.mutex} unlocked(x.mutex)
@@ -79,3 +79,9 @@ package ratelimiter
 //@   ensures seq: denied_keeps: !result ==> asptr(rl.buckets.val[clientIP], *bucket).tokens == 0
 //@   ensures seq: isolation_map: forall k string :: {rl.buckets.has[k]} k != clientIP ==> rl.buckets.has[k] == old(rl.buckets.has[k]) && rl.buckets.val[k] == old(rl.buckets.val[k])
 //@   modifies rl.buckets.has, rl.buckets.val, rl.buckets.dyn, bucket.tokens, bucket.lastRefill, bucket.adm, bucket.seen, bucket.pre
+
+// ---- access policies (C12)
+//@ field bucket.tokens guarded_by bucket.mutex
+//@ field bucket.lastRefill guarded_by bucket.mutex
+//@ field TokenBucketRateLimiter.maxTokens immutable
+//@ field TokenBucketRateLimiter.refillRate immutable
